@@ -287,10 +287,22 @@ def rule_D3(ctx, facts_by_cfg):
     ctx.floor("core function bodies in the reference configuration", len(R), 100)
     ndiff = ncmp = 0
     maxdeg = {c: facts_by_cfg[c].const_val("platform::MAX_SIMD_DEGREE") for c in cfgs}
+    import extract
+    ptr = lambda c: extract.CONFIGS.get(c, {}).get("ptr", 64)
+    refs = {ptr(ref): ref}
+    Rs = {ref: R}
     for c in cfgs:
         if c == ref:
             continue
         C = core_fns(facts_by_cfg[c])
+        if ptr(c) not in refs:
+            # MIR legitimately differs between pointer widths (integer cast kinds, layout-dependent constants): configurations of
+            # another width are compared among themselves, the first of them being that group's reference
+            refs[ptr(c)] = c
+            Rs[c] = C
+            ctx.ob(True, "config-invariant:compared:%s" % c, "", "reference configuration of the %d-bit group (%d function bodies)" % (ptr(c), len(C)), cfg=c)
+            continue
+        ref, R = refs[ptr(c)], Rs[refs[ptr(c)]]
         same_group = maxdeg[c] == maxdeg[ref]
         common = sorted(set(R) & set(C))
         ctx.floor("functions common to %s and %s" % (ref, c), len(common), 60)
